@@ -1468,6 +1468,33 @@ fn parse_unary_expression(tokens: &mut Tokens) -> Result<Expression, Error>
 		{
 			tokens.pop_front();
 			let location_of_op = tokens.last_location.clone();
+			// The most negative 128-bit integer is a valid negative even
+			// though its magnitude does not fit a positive i128.
+			const ABS_OF_MIN: u128 = (i128::MAX as u128) + 1;
+			let type_of_min = match peek(tokens)
+			{
+				Some(Token::NakedDecimal(value)) if *value == ABS_OF_MIN =>
+				{
+					Some(None)
+				}
+				Some(Token::SuffixedInteger { value, suffix_type })
+					if *value == ABS_OF_MIN && suffix_type.is_signed() =>
+				{
+					Some(Some(Ok(suffix_type.clone())))
+				}
+				_ => None,
+			};
+			if let Some(value_type) = type_of_min
+			{
+				tokens.pop_front();
+				let location =
+					location_of_op.combined_with(&tokens.last_location);
+				return Ok(Expression::SignedIntegerLiteral {
+					value: i128::MIN,
+					value_type,
+					location,
+				});
+			}
 			let expr = parse_primary_expression(tokens)?;
 			let location =
 				location_of_op.clone().combined_with(expr.location());
